@@ -6,6 +6,7 @@ import (
 	"errors"
 	"fmt"
 	"os"
+	"runtime"
 	"sort"
 	"strconv"
 	"strings"
@@ -99,6 +100,9 @@ func runProtoSuite(suite string, rng *Rng, thorough bool, s *Sink) {
 			}
 		}
 		genC03(rng, thorough, emit)
+		twoInstances(rng, s)
+	case "c03x":
+		genC03x(rng, thorough, emit)
 	case "c04":
 		genC04(rng, thorough, emit)
 	case "c05":
@@ -115,6 +119,15 @@ func runProtoSuite(suite string, rng *Rng, thorough bool, s *Sink) {
 		genC05(sub, false, collect)
 		genC06(sub, false, collect)
 		genC02History(sub, collect)
+		// a slow device: the rejected first answer takes 150 ms, so the retry comes after an idle pause (and flushes);
+		// the one line of the call still holds everything written and consumed during the call
+		for k := 0; k < 3; k++ {
+			a := uint16(sub.U64())
+			bad := simGet(a, 0, []byte{1, 2})
+			bad[len(bad)-2] = hexU[(hexVal(bad[len(bad)-2])+1)%16]
+			pool = append(pool, &Scenario{Tag: "idle-history-slow-device", RDelay: map[int]int{0: 150}, Replies: [][][]byte{one(bad), one(simGet(a, 0, []byte{1, 2}))},
+				Calls: []Call{{Kind: []string{"uint", "int", "str"}[k], Addr: a}}, MaxWritesPerCall: 8})
+		}
 		keep := 4
 		if thorough {
 			keep = 1
@@ -144,6 +157,27 @@ func runProtoSuite(suite string, rng *Rng, thorough bool, s *Sink) {
 				} else if opSig+"|"+trafficSig(res.Out) != sig && strings.SplitN(sig, "|", 2)[0] == opSig {
 					s.Violate(res.Op, res.Out, "results / bytes written / reads performed differ from the run without loggers: "+sig)
 				}
+			}
+		}
+		// two loggers on one file, and somebody else appending in between (all lines far below the loggers' buffer size,
+		// so each logger writes when it is closed)
+		for i := 0; i < 12; i++ {
+			mk := func(tag string, n int) []string {
+				var l []string
+				for k := 0; k < n; k++ {
+					l = append(l, fmt.Sprintf("%q: %q, // %s %d", rng.Bytes(rng.Intn(8)), rng.Bytes(rng.Intn(8)), tag, k))
+				}
+				return l
+			}
+			prev := rng.Bytes(rng.Intn(40))
+			var other []byte
+			if i%3 == 0 {
+				other = []byte("somebody else was here\n")
+			}
+			got, want, err := twoFileLoggers(prev, mk("a", 1+rng.Intn(4)), mk("b", rng.Intn(4)), mk("a'", rng.Intn(3)), other)
+			s.Extra["two_logger_files"]++
+			if err != nil || got != want {
+				s.Violate(fmt.Sprintf("FL %s - mut:two-loggers-on-one-file", HEX(prev)), got, fmt.Sprintf("two file loggers on one path (err=%v): the file holds %s, appending in order gives %s", err, got, want))
 			}
 		}
 		// the file logger on real files
@@ -190,6 +224,49 @@ func runProtoSuite(suite string, rng *Rng, thorough bool, s *Sink) {
 	}
 }
 
+// twoInstances: two drivers (two devices), each used by its own goroutine only, on one processor, over ports whose Write
+// yields before it looks at its argument (a blocking serial write): every Write still gets the frame of its own driver
+func twoInstances(rng *Rng, s *Sink) {
+	old := runtime.GOMAXPROCS(1)
+	defer runtime.GOMAXPROCS(old)
+	type inst struct {
+		port *Port
+		addr uint16
+	}
+	a := inst{NewPort(nil, nil, nil, nil, nil), uint16(rng.U64())}
+	b := inst{NewPort(nil, nil, nil, nil, nil), uint16(rng.U64())}
+	a.port.Yield, b.port.Yield = true, true
+	done := make(chan bool, 2)
+	run := func(x inst, cmd byte) {
+		defer func() { recover(); done <- true }()
+		vd, _ := vedirect.NewVedirect(x.port, vedirect.Config{})
+		for i := 0; i < 40; i++ {
+			vd.VeCommand(vedirect.VeCommand(cmd), x.addr)
+			vd.Ping()
+		}
+	}
+	go run(a, 7)
+	go run(b, 8)
+	<-done
+	<-done
+	for _, x := range []struct {
+		inst
+		cmd byte
+	}{{a, 7}, {b, 8}} {
+		for i, w := range x.port.Written {
+			want := string(simFrame(x.cmd, []byte{byte(x.addr), byte(x.addr >> 8), 0}))
+			if i%2 == 1 {
+				want = ":154\n"
+			}
+			if string(w) != want {
+				s.Violate(fmt.Sprintf("T %X %04X mut:two-drivers-on-two-goroutines", x.cmd, x.addr), HEX(w), fmt.Sprintf("write #%d of this driver handed %q to its port; its own frame is %q (another driver was sending at the same time)", i, w, want))
+				break
+			}
+		}
+	}
+	s.Extra["two_instance_writes"] += len(a.port.Written) + len(b.port.Written)
+}
+
 func genC02History(rng *Rng, emit func(*Scenario)) {
 	for i := 0; i < 60; i++ {
 		nc := 2 + rng.Intn(8)
@@ -226,6 +303,10 @@ func txPayloadOracle(cmd byte, addr uint16, w []byte) string {
 }
 
 func main() {
+	if len(os.Args) == 3 && os.Args[1] == "coldstart" {
+		coldstartMain(os.Args[2])
+		return
+	}
 	if len(os.Args) < 5 {
 		fmt.Fprintln(os.Stderr, "usage: harness <suite> <quick|thorough> <seed> <outfile> [summary.json]")
 		os.Exit(2)
@@ -240,7 +321,7 @@ func main() {
 	rng := NewRng(seed)
 	thorough := tier == "thorough"
 	switch {
-	case suite == "c01", suite == "c02", suite == "c03", suite == "c04", suite == "c05", suite == "c06", suite == "c18":
+	case suite == "c01", suite == "c02", suite == "c03", suite == "c04", suite == "c05", suite == "c06", suite == "c18", suite == "c03x":
 		runProtoSuite(suite, rng, thorough, s)
 	default:
 		if !runOtherSuite(suite, rng, thorough, s) {
